@@ -347,12 +347,20 @@ class Evaluator(Interp):
             if isinstance(node.op, ast.And):
                 if not b:
                     return v
+                # the operands to the right are evaluated on the path where this one is true: isinstance narrowing
+                # of locals as after an `if` (the path condition carries the fact)
+                self.narrow(e, fr)
             else:
                 if b:
                     # a truthy optional is not None
                     if isinstance(v, SV) and isinstance(v.ty, TOpt):
                         return self.assume_wf(SV(v.ty.inner, acc(v.ty.val(v.term))))
                     return v
+                # `not isinstance(x, C) or <uses x as C>`: the right operand runs on the path where the left is false
+                if isinstance(e, ast.UnaryOp) and isinstance(e.op, ast.Not):
+                    self.narrow(e.operand, fr)
+                else:
+                    self.narrow_not(e, fr)
         return v
 
     def e_UnaryOp(self, node, fr):
